@@ -467,3 +467,68 @@ def cases():  # noqa: F811
     cs.append(ComputeAggregate())
     cs.append(StoreUnique())
     return cs
+
+
+class StoreFilter(Case):
+    """bounded, replayable: include / exclude by stream id, test name or function on the real
+    PandasStore.save, every combination of small lists"""
+
+    is_bounded = True
+    module = "ioos_qc.stores"
+    function = "PandasStore.save"
+    default_props = {}
+    props = {"bounded.include_exclude": ("C19",)}
+
+    @property
+    def name(self):
+        return "stores.PandasStore.save[filter]"
+
+    def all_props(self):
+        return {"C19"}
+
+    def one(self, inc, exc):
+        import numpy as np
+
+        from pyvc import replay
+
+        st = replay.real_module("ioos_qc.stores")
+        rs = replay.real_module("ioos_qc.results")
+        fns = {"f1": len, "f2": abs}
+        crs = []
+        for k, (sid, t, fn) in enumerate((("a", "t1", "f1"), ("a", "t2", "f2"), ("b", "t1", "f2"))):
+            crs.append(rs.CollectedResult(stream_id=sid, package="qartod", test=t, function=fns[fn], results=np.ma.array([k + 1, k + 2], dtype="uint8"), data=np.array([1.0, 2.0]), tinp=np.array([0, 1], dtype="datetime64[s]"), zinp=np.array([]), lat=np.array([]), lon=np.array([])))
+        conv = lambda lst: None if lst is None else [fns.get(x, x) for x in lst]  # noqa: E731
+        store = st.PandasStore.__new__(st.PandasStore)
+        store.collected_results = crs
+        store.axes = {"t": "time", "z": "z", "y": "lat", "x": "lon"}
+        try:
+            df = store.save(write_data=False, write_axes=False, include=conv(inc), exclude=conv(exc))
+        except Exception as e:  # noqa: BLE001
+            return "save(include=%r, exclude=%r) raised %r" % (inc, exc, e)
+        keep = []
+        for cr, fn in zip(crs, ("f1", "f2", "f2")):
+            keys = {cr.stream_id, cr.test, fn}
+            k_ = (inc is None or keys & set(inc)) and not (exc is not None and keys & set(exc))
+            if k_:
+                keep.append(st.column_from_collected_result(cr))
+        if sorted(df.columns) != sorted(keep):
+            return "include=%r exclude=%r: columns %s, statement %s" % (inc, exc, sorted(df.columns), sorted(keep))
+        return None
+
+    def bounded_checks(self, tier, rng):
+        lists = [None, [], ["a"], ["t2"], ["f1"], ["zzz"], ["a", "t2"], ["b", "f2"]]
+        for inc in lists:
+            for exc in lists:
+                yield ("include=%s|exclude=%s" % (inc, exc), "filter", {"include": inc, "exclude": exc}, (lambda i=inc, x=exc: self.one(i, x)))
+
+    def replay_bounded(self, label, values):
+        return self.one(values["include"], values["exclude"])
+
+
+_cases_without_filter = cases
+
+
+def cases():  # noqa: F811
+    cs = [c for c in _cases_without_filter() if not isinstance(c, StoreFilter)]
+    cs.append(StoreFilter())
+    return cs
